@@ -183,3 +183,82 @@ Proof.
   now apply Hone with s1.
 Qed.
 
+
+(** * The router parks (without a sink having said Pending) only with an empty buffer (C09) *)
+
+(** control points after the buffered message has been handed to the subscribers *)
+Definition ps_past_item (c : pc) : bool :=
+  match c with PSend _ _ | PHandle | PStreamsStart | PStreams _ _ _ | PFlush _ _ => true | _ => false end.
+
+Definition PsDrainInv (s : st) : Prop := ps_past_item (ctl s) = true -> buffered s = None.
+
+Ltac psd_solve :=
+  match goal with
+  | |- _ /\ _ => split; psd_solve
+  | |- _ => try discriminate; intros;
+            first [ reflexivity | discriminate | assumption | exact I
+                  | solve [subst; cbn [sink_pending] in *; intuition (try congruence; try discriminate)] ]
+  end.
+
+Lemma psdrain_internal s s' : PsDrainInv s -> internal s = Some s' ->
+  PsDrainInv s' /\ (ctl s' = PReturn false -> buffered s' = None).
+Proof.
+  unfold PsDrainInv. intros H1 H. unfold internal in H.
+  crush_matches H; injection H as <-;
+    try match goal with Hc : ctl s = _ |- _ => rewrite Hc in H1 end; cbn [ps_past_item] in H1;
+    simp_st; unfold after_flush; cbn [ps_past_item];
+    repeat match goal with Hb : _ = _ |- _ => progress (rewrite Hb in * ) end;
+    first [ psd_solve | (match goal with w : fl_reason |- _ => destruct w end; cbn [ps_past_item] in *; psd_solve) ].
+Qed.
+
+Lemma psdrain_step_raw s e s' : PsDrainInv s -> step_raw s e = Some s' ->
+  PsDrainInv s' /\ (ctl s' = PReturn false -> sink_pending e = false -> buffered s' = None).
+Proof.
+  unfold PsDrainInv. intros H1 H. unfold step_raw in H.
+  crush_matches H; injection H as <-;
+    try match goal with Hc : ctl s = _ |- _ => rewrite Hc in H1 end; cbn [ps_past_item] in H1;
+    simp_st; try match goal with Hc : ctl s = _ |- _ => rewrite ?Hc end; cbn [ps_past_item];
+    repeat match goal with Hb : _ = _ |- _ => progress (rewrite Hb in * ) end;
+    psd_solve.
+Qed.
+
+Lemma psdrain_settle fuel : forall s s',
+  PsDrainInv s -> settle fuel s = Some s' ->
+  PsDrainInv s' /\ (ctl s' = PReturn false -> s' = s \/ buffered s' = None).
+Proof.
+  induction fuel as [|k IH]; intros s s' HD H; cbn [settle] in H; [discriminate|].
+  destruct (internal s) as [s1|] eqn:E.
+  - destruct (psdrain_internal _ _ HD E) as [HD1 Hret].
+    destruct (IH s1 s' HD1 H) as (HD' & Hsame).
+    split; [exact HD'|]. intros Hr. right. destruct (Hsame Hr) as [->|Hd]; [now apply Hret|exact Hd].
+  - injection H as <-. split; [exact HD|]. intros _. now left.
+Qed.
+
+(** when the pub/sub router returns Pending in a step in which no subscriber answered Pending, the
+    message it had pulled has been handed to the subscribers: nothing is waiting in its buffer *)
+Theorem ps_parks_only_when_drained tr s e s' :
+  run init tr = Some s -> step s e = Some s' -> ctl s' = PReturn false -> sink_pending e = false ->
+  buffered s' = None.
+Proof.
+  intros Hrun Hstep Hret Hnp.
+  assert (HD : PsDrainInv s).
+  { revert Hrun. apply (ps_lift_run PsDrainInv).
+    - intros a b Ha Hi. exact (proj1 (psdrain_internal a b Ha Hi)).
+    - intros a ev b Ha Hr. exact (proj1 (psdrain_step_raw a ev b Ha Hr)).
+    - unfold PsDrainInv. cbn. discriminate. }
+  unfold step, obind in Hstep.
+  destruct (settled s) as [s0|] eqn:E0; [|discriminate].
+  destruct (psdrain_settle _ _ _ HD E0) as (HD0 & _).
+  assert (Hone : forall a, PsDrainInv a ->
+                 match step_raw a e with Some x => settled x | None => None end = Some s' -> buffered s' = None).
+  { intros a Ha Hb. destruct (step_raw a e) as [x|] eqn:Ex; [|discriminate].
+    destruct (psdrain_step_raw _ _ _ Ha Ex) as [HDx Hp].
+    destruct (psdrain_settle _ _ _ HDx Hb) as (_ & Hsame).
+    destruct (Hsame Hret) as [->|Hd]; [now apply Hp|exact Hd]. }
+  destruct (ctl s0) eqn:Ec0; try (now apply Hone with s0).
+  destruct e; try (now apply Hone with s0).
+  destruct (step_raw s0 (EStream j r)) as [s1|] eqn:E1; [|discriminate].
+  destruct (psdrain_step_raw _ _ _ HD0 E1) as [HD1 _].
+  now apply Hone with s1.
+Qed.
+
